@@ -36,4 +36,19 @@ ScaleResult(replicas, ntpl, pvcs, flag, n, updfail) ==
 (* is not fully ready is held back for the first two minutes only (first sight: held back).     *)
 Coordinated(st) == st.replicas = st.updated /\ st.ready = st.replicas
 HeldBackAtFirstSight(st) == st.replicas = st.updated /\ st.ready # st.replicas
+
+(* Replicas() over time, for one StatefulSet: mem is the instant it was first seen not ready (-1: nothing      *)
+(* remembered; the instant is forgotten whenever a rolling update is seen, and kept otherwise), now the time in  *)
+(* minutes.  Result: [coordinated, mem].                                                                          *)
+ReplicasStep(mem, st, now) ==
+  IF st.replicas # st.updated THEN [coordinated |-> FALSE, mem |-> -1]
+  ELSE IF st.ready # st.replicas
+    THEN LET m == IF mem = -1 THEN now ELSE mem
+         IN [coordinated |-> now - m >= 2, mem |-> m]
+  ELSE [coordinated |-> TRUE, mem |-> mem]
+RECURSIVE ReplicasSeq(_, _, _, _)
+ReplicasSeq(mem, now, steps, k) ==      \* steps[k] = [st, adv]: adv minutes pass, then Replicas() sees st
+  IF k > Len(steps) THEN <<>>
+  ELSE LET r == ReplicasStep(mem, steps[k].st, now + steps[k].adv)
+       IN <<r.coordinated>> \o ReplicasSeq(r.mem, now + steps[k].adv, steps, k + 1)
 =============================================================================
